@@ -34,8 +34,20 @@ package compiler
 //@   ensures result == und(f, t) && result != nil
 //@ func parser.Frugal.isValidType
 //@   decreases tree(typ)
+// cyc(f, t, E): expanding t the way UnderlyingType and the emitters do (into container element types and
+// through typedefs, an included typedef in its declaring file) meets a typedef of the set E or one that is
+// met again further down. typedefCycle is verified to compute exactly this (one unfolding per use), with
+// the set of typedefs being expanded restored on return.
+//@ specfn cyc(Int, Int, (Array Int Bool)) Bool
+//@ pred tdof(f, t) = tdowner(f, t).typedefIndex[paramname(t.Name)]
+//@ pred setlike(m) = forallref(k, has(m, k) ==> m[k])
+//@ define cyc(f, t, E) = t != nil && (cyc(f, t.KeyType, E) || cyc(f, t.ValueType, E) || (tdhas(f, t) && (member(E, tdof(f, t)) || cyc(tdowner(f, t), tdof(f, t).Type, setadd(E, tdof(f, t))))))
 //@ func parser.Frugal.typedefCycle
+//@   requires expanding != nil && setlike(expanding)
 //@   decreases tree(t)
+//@   ensures result == cyc(f, t, old(dom(expanding)))
+//@   ensures dom(expanding) == old(dom(expanding)) && setlike(expanding)
+//@   modifies mapof(expanding)
 //@ func parser.Type.String
 //@   decreases tree(t)
 //@ func parser.addInclude
